@@ -891,6 +891,10 @@ class Machine:
                 return py_mod_int(za, zb)
             return self.real_mod(za, zb)
         if isinstance(op, ast.Pow):
+            if not isinstance(b, int) and self.c.binop_hook is not None:
+                r = self.c.binop_hook(self, op, a, b)
+                if r is not NotImplemented:
+                    return r
             if isinstance(b, int) and 0 <= b <= 8:
                 r = to_z3num(1) if za.sort() == INT else to_real(1)
                 for _ in range(b):
@@ -1406,8 +1410,13 @@ class Machine:
 
     def emit_lemmas(self):
         if len(self.trace) == 0 and self.tidx == 0 and not self._lemmas_done:
-            for label, text in self.c.theorems:
+            for th in self.c.theorems:
+                label, text = th[0], th[1]
+                saved = len(self.pc)
+                for ax in (th[2] if len(th) > 2 else ()):
+                    self.pc.append(to_bool(self.spec(ax)))
                 self.oblige("theorem/%s" % label, self.spec(text))
+                del self.pc[saved:]
         for lem in self.c.lemmas:
             v = z3.Int("%s!lem" % lem.var)
             q = lambda t: to_bool(self.spec(lem.statement, {lem.var: t}))
